@@ -13,15 +13,15 @@ import (
 
 func init() {
 	register(&Property{
-		ID:        "C14",
-		Title:     "Every set cursor enumerates its set exactly, in order, and seeks correctly",
-		Technique: "static analysis: key-provenance dataflow (raw tagged key / nil-safe stripped / nil-unsafe stripped / derived) over every store to a cursor's position field, seek-argument tag rule, nil-guard rule for llrb nodes, forward/reverse constructor-primitive agreement table",
-		LevelText: "Decides, for every cursor type in boltz and ast, structural necessary conditions of the contract: a typed cursor never exposes a storage type tag and never confuses a present element with exhaustion (position field provenance), Seek prepends the tag exactly when Current strips it, tree cursors never dereference an absent node, and forward/reverse variants use the matching bbolt primitives and are selected by the matching flag value. Exact enumeration on real buckets, bbolt's Seek semantics and llrb ordering are trusted, not decided.",
-		LevelNote: "Trusted: go/types, x/tools SSA, bbolt cursor semantics (keys non-empty, nil at end), llrb. Provenance depth is bounded (4 levels through fields/returns); anything deeper is reported as undecided, never assumed.",
-		DesignRef: "DESIGN.md C14",
+		ID:          "C14",
+		Title:       "Every set cursor enumerates its set exactly, in order, and seeks correctly",
+		Technique:   "static analysis: key-provenance dataflow (raw tagged key / nil-safe stripped / nil-unsafe stripped / derived) over every store to a cursor's position field, seek-argument tag rule, nil-guard rule for llrb nodes, forward/reverse constructor-primitive agreement table",
+		LevelText:   "Decides, for every cursor type in boltz and ast, structural necessary conditions of the contract: a typed cursor never exposes a storage type tag and never confuses a present element with exhaustion (position field provenance), Seek prepends the tag exactly when Current strips it, tree cursors never dereference an absent node, and forward/reverse variants use the matching bbolt primitives and are selected by the matching flag value. Exact enumeration on real buckets, bbolt's Seek semantics and llrb ordering are trusted, not decided.",
+		LevelNote:   "Trusted: go/types, x/tools SSA, bbolt cursor semantics (keys non-empty, nil at end), llrb. Provenance depth is bounded (4 levels through fields/returns); anything deeper is reported as undecided, never assumed.",
+		DesignRef:   "DESIGN.md C14",
 		Explanation: "Sites: every named struct type in boltz/ast with Next/IsValid/Current methods; every store to its position field; every call of bbolt Cursor.Seek inside its Seek methods; every dereference of an llrb node pointer in ast; every function that chooses a cursor constructor by a boolean direction flag.",
-		Trusted:   []string{"go/types", "golang.org/x/tools/go/ssa v0.29.0", "bbolt cursor semantics", "github.com/biogo/store/llrb"},
-		Rules:     rulesC14,
+		Trusted:     []string{"go/types", "golang.org/x/tools/go/ssa v0.29.0", "bbolt cursor semantics", "github.com/biogo/store/llrb"},
+		Rules:       rulesC14,
 		Controls: []controlExpect{
 			{"C14.POSITION", "zzControlBadCursorC14", true},
 			{"C14.POSITION", "zzControlGoodCursorC14", false},
@@ -502,6 +502,7 @@ func rulesC14(c *Ctx) {
 	c.Floor("C14.SEEKTAG", 6)
 
 	ruleC14Reposition(c, cts, isCT)
+	ruleC14Union(c)
 	ruleC14Empty(c)
 	ruleC14Direction(c, cts)
 	ruleC14Wrap(c)
@@ -909,4 +910,117 @@ func ruleC14Reposition(c *Ctx, cts []cursorType, isCT map[*types.Named]bool) {
 	}
 	c.Floor("C14.REPOSITION", 1)
 	_ = isCT
+}
+
+// ruleC14Union: complete decision table of unionSetCursor.Next over (fst valid, snd valid,
+// compare result, direction): which element becomes current and which inputs advance.
+func ruleC14Union(c *Ctx) {
+	p := c.P
+	fn := p.SSAFunc(p.Method("ast", "unionSetCursor", "Next"))
+	name := FnName(fn)
+	c.Analysed(name)
+	cur := p.Field("ast", "unionSetCursor", "current")
+	fwd := p.Field("ast", "unionSetCursor", "forward")
+	sideOf := func(v ssa.Value) string {
+		if f, base := loadedField(v); f != nil && base == ssa.Value(fn.Params[0]) && (f.Name() == "fst" || f.Name() == "snd") {
+			return f.Name()
+		}
+		return ""
+	}
+	bad, rows := 0, 0
+	for _, fv := range []bool{true, false} {
+		for _, sv := range []bool{true, false} {
+			cmps := []int{0}
+			if fv && sv {
+				cmps = []int{-1, 0, 1}
+			}
+			for _, cmp := range cmps {
+				for _, forward := range []bool{true, false} {
+					rows++
+					oracle := func(v ssa.Value) (AV, bool) {
+						if f, base := loadedField(v); sameVar(f, fwd) && base == ssa.Value(fn.Params[0]) {
+							return avBool(forward), true
+						}
+						call, ok := v.(*ssa.Call)
+						if !ok {
+							return AV{}, false
+						}
+						if call.Call.IsInvoke() {
+							side := sideOf(call.Call.Value)
+							switch call.Call.Method.Name() {
+							case "IsValid":
+								if side == "fst" {
+									return avBool(fv), true
+								}
+								if side == "snd" {
+									return avBool(sv), true
+								}
+							case "Current":
+								if side != "" {
+									return AV{Kind: "sym", Sym: side}, true
+								}
+							case "Next":
+								return AV{Kind: "sym", Sym: "void"}, true
+							}
+						}
+						if cal, _ := calleeOf(call.Common()); cal != nil && cal.Name() == "Compare" && cal.Pkg() != nil && cal.Pkg().Path() == "bytes" {
+							return avInt(int64(cmp)), true
+						}
+						return AV{}, false
+					}
+					_, trace, eval, err := DecideTrace(fn, oracle)
+					desc := fmt.Sprintf("fstValid=%v sndValid=%v cmp=%d forward=%v", fv, sv, cmp, forward)
+					if err != "" {
+						bad++
+						c.Undecided("C14.UNION", name+": "+desc, p.Pos(fn.Pos()), "not decidable: "+err)
+						continue
+					}
+					adv := map[string]int{}
+					got := ""
+					for _, in := range trace {
+						if call, ok := in.(ssa.CallInstruction); ok && call.Common().IsInvoke() && call.Common().Method.Name() == "Next" {
+							adv[sideOf(call.Common().Value)]++
+						}
+						if st, ok := in.(*ssa.Store); ok {
+							if f, _ := fieldOfAddr(st.Addr); sameVar(f, cur) {
+								a := eval(st.Val)
+								switch a.Kind {
+								case "nil":
+									got = "nil"
+								case "sym":
+									got = a.Sym
+								default:
+									got = "?"
+								}
+							}
+						}
+					}
+					var want string
+					wantAdv := map[string]int{}
+					switch {
+					case !fv && !sv:
+						want = "nil"
+					case !fv:
+						want, wantAdv["snd"] = "snd", 1
+					case !sv:
+						want, wantAdv["fst"] = "fst", 1
+					case cmp == 0:
+						want, wantAdv["fst"], wantAdv["snd"] = "either", 1, 1
+					case (cmp < 0) == forward:
+						want, wantAdv["fst"] = "fst", 1
+					default:
+						want, wantAdv["snd"] = "snd", 1
+					}
+					okRow := (got == want || (want == "either" && (got == "fst" || got == "snd"))) && adv["fst"] == wantAdv["fst"] && adv["snd"] == wantAdv["snd"]
+					if !okRow {
+						bad++
+						c.Bad("C14.UNION", name+": "+desc, p.Pos(fn.Pos()), fmt.Sprintf("takes %q and advances fst×%d snd×%d; a union in key order must take %q and advance fst×%d snd×%d (equal elements are emitted once and both inputs advance)", got, adv["fst"], adv["snd"], want, wantAdv["fst"], wantAdv["snd"]))
+					}
+				}
+			}
+		}
+	}
+	if bad == 0 {
+		c.OK("C14.UNION", name, p.Pos(fn.Pos()), fmt.Sprintf("decision table complete: %d rows (validity × compare × direction) choose the right element and advance the right inputs", rows))
+	}
 }
